@@ -572,6 +572,13 @@ func (repo *Repository) VerifyMerkleProof(ctx context.Context,
 		return -1, false, merkle_proof.ErrNotVerifiable
 	}
 
+	// The root calculation only uses one bit of the index per level of the path, so an index
+	// beyond the width of that tree would verify as the index with the higher bits removed.
+	depth := len(proof.Path) + len(proof.DuplicatedIndexes)
+	if proof.Index < 0 || (depth < 62 && proof.Index>>uint(depth) != 0) {
+		return -1, false, errors.Wrap(merkle_proof.ErrBadIndex, "merkle proof")
+	}
+
 	if err := proof.Verify(); err != nil {
 		return -1, false, errors.Wrap(err, "merkle proof")
 	}
